@@ -646,6 +646,21 @@ def _ext_designed():
                 items.append((name, 'xfix', base + [('KillBegin', [h]), ('ARun', [])]))
                 for inst in (a, b):
                     items.append((name, 'xfix', base + [('UnregBegin', [h, inst]), ('ARun', [])]))
+    # a newer container on the same host (other real port) rewrites the endpoint node of its own
+    # session: between the read and the rewrite the node is removed (helper) / the session expires
+    for name in ('a2', 'px'):
+        scn = pd.SCENARIOS[name]
+        a = scn['inst'][scn['conts'][0]]
+        same = [c for c in scn['conts'] if scn['inst'][c] == a][:2]
+        for h in scn['hosts'][:2]:
+            head = [('Submit', [h, same[0]]), ('Run', [h]), ('Submit', [h, same[1]]), ('Begin', [h]),
+                    ('UntilRewrite', [h])]
+            items.append((name, 'xfix', head + [('UnregBegin', [h, a]), ('ARun', []), ('Cont', [h])]))
+            items.append((name, 'xfix', head + [('KillBegin', [h]), ('ARun', []), ('Cont', [h])]))
+            items.append((name, 'xfix', head + [('Expire', [h, []]), ('Restart', [h, list(reversed(same))]),
+                                                ('Run', [h]), ('Run', [h])]))
+            items.append((name, 'xfix', head + [('Crash', [h]), ('Restart', [h, same]), ('Run', [h]),
+                                                ('Reap', [scn['hosts'].index(h) + 1, []]), ('Run', [h])]))
     # the host's nodes are killed, the instance registers on the other host, then the old
     # container is cleaned up: its recorded paths now belong to the other session
     for name in ('a2', 'k2', 'px'):
@@ -777,6 +792,14 @@ def _ext_schedules(ctx, obs):
                                    extra_files=files, timeout=120 if ctx.quick else 600)
     ctx.cmds.append(cmd)
     items += [('k2', 'xtlc', _sched(b)) for b in behaviours]
+    # with an endpoint: the 'content differs' rewrite (get, set) of _safe_create is there
+    scn = pd.SCENARIOS['a2']
+    mod, cfg, files = mc_files(scn, 'xgen2', 0, ['olderSteals'], [], max_pad=90, helpers=('kill', 'unreg'))
+    behaviours, cmd = tlc.simulate(SPEC_DIR, mod, cfg, num=16 if ctx.quick else 400, depth=90,
+                                   seed=ctx.seed * 47 + 3, procs=2 if ctx.quick else 4,
+                                   extra_files=files, timeout=120 if ctx.quick else 600)
+    ctx.cmds.append(cmd)
+    items += [('a2', 'xtlc', _sched(b)) for b in behaviours]
     names = ['k2', 'a2', 'px', 'a2b1', 'py']
     for k in range(100 if ctx.quick else 3000):
         items.append((names[k % len(names)], 'xrnd', ctx.seed * 1000003 + 500000 + k, 160))
